@@ -176,7 +176,7 @@ fn main() {
                 let b = gen::gen(*fb, n, &mut rng);
                 run_pair(ctx, n, &a, &b);
             }
-            let extra = if thorough { 3000 } else { 40 } / std::cmp::max(1, n / 4);
+            let extra = if thorough { 24000 } else { 120 } / std::cmp::max(1, n / 4);
             for _ in 0..extra {
                 let a = gen::random_blocks(n, &mut rng);
                 let b = gen::random_blocks(n, &mut rng);
@@ -188,7 +188,7 @@ fn main() {
                     if (x as usize) % chunks != c {
                         continue;
                     }
-                    for _ in 0..4 {
+                    for _ in 0..24 {
                         let y = rng.next_u64() & 0xffff;
                         run_pair(ctx, n, &[x], &[y]);
                     }
